@@ -257,8 +257,21 @@ def minimise(check, case, violation, env, budget_s=60.0, max_candidates=200):
 
 # ---------------------------------------------------------------- main driver
 
+def _sweep_stale_scratch():
+    """scratch of runs that were killed before they could clean up (older than 6 h)"""
+    root = scratch_root()
+    try:
+        for n in os.listdir(root):
+            p = os.path.join(root, n)
+            if n.startswith("vf-") and os.path.isdir(p) and time.time() - os.path.getmtime(p) > 6 * 3600:
+                shutil.rmtree(p, ignore_errors=True)
+    except OSError:
+        pass
+
+
 def run_check(check, tier, seed, repo=DEFAULT_REPO, workers=None, write_evidence=True, case_limit=None):
     t_start = time.time()
+    _sweep_stale_scratch()
     log("VERIF_SEED=%d property=%s tier=%s engine=%s" % (seed, check.ID, tier, check.ENGINE))
     try:
         simkernel = build_simkernel()
